@@ -121,7 +121,13 @@ class EllipticalArc(NamedTuple):
         elif theta_arc > 0 and not self.sweep:
             theta_arc -= TWO_PI
 
-        center_point = point_transform.inverse().map_point(center_point)
+        # undo point_transform with the transform written out the other way round:
+        # Affine2D.inverse() calls a matrix whose determinant, 1 / (rx * ry), is below
+        # float epsilon degenerate and returns zeros, which put the centre of
+        # arcs with very large radii at the origin
+        center_point = (
+            Affine2D.identity().rotate(angle).scale(self.rx, self.ry)
+        ).map_point(center_point)
 
         return CenterParametrization(theta1, theta_arc, center_point)
 
